@@ -644,6 +644,14 @@ func corpus() []*tcase {
 		mk("76"+"51"+"80"+"01ee"+"7e"+"7c"+"51", "c1c2c3c4"),    // DUP 1 LEFT <ee> CAT SWAP 1: sibling copy
 		mk("76"+"51"+"80"+"01ee"+"89"+"7c"+"51", "c1c2c3c4"),    // same with CATPUSHDATA
 		mk("c4" + "52" + "80" + "01ee" + "7e" + "51"),           // PROGRAM 2 LEFT <ee> CAT: the program buffer itself
+		// a value against a proper prefix / window of itself that shares its memory: values are
+		// compared as byte strings, never as buffers
+		mk("76"+"52"+"80"+"87"+"91", "c1c2c3c4"),                // DUP 2 LEFT EQUAL NOT
+		mk("76"+"54"+"80"+"88"+"51", "c1c2c3c4c5"),              // DUP 4 LEFT EQUALVERIFY 1 (must fail)
+		mk("76"+"00"+"53"+"7f"+"87"+"91", "d1d2d3d4d5d6"),       // DUP 0 3 SUBSTR EQUAL NOT
+		mk("76"+"53"+"80"+"78"+"87"+"91", "e1e2e3e4"),           // DUP 3 LEFT OVER EQUAL NOT
+		mk("6e"+"51"+"80"+"87"+"91", "a1a2a3", "a1a2a3"),        // 2DUP 1 LEFT EQUAL NOT
+		mk("76"+"54"+"80"+"87", "c1c2c3c4"),                     // DUP 4 LEFT EQUAL (whole value: TRUE)
 		// last, because a failure here destroys the process-wide constant and ends the run:
 		mk("5151870080" + "0100" + "7e" + "51" + "51" + "87"), // 1 1 EQUAL 0 LEFT <00> CAT 1 1 EQUAL: TRUE must still be 01
 	}
